@@ -69,6 +69,37 @@ pub fn gen_value(rng: &mut Rng, ty: VariantType, nlabels: u64, legal: bool) -> V
             let b: Vec<u8> = b.into();
             Variant::BinaryString(if b.len() > 3000 { b[..3000].to_vec().into() } else { b.into() })
         }
+        Variant::Attributes(a) => {
+            // mostly attribute maps the blob writer accepts (an unsupported entry makes the whole encode fail)
+            if rng.chance(85) {
+                const OK: [VariantType; 17] = [VariantType::BinaryString, VariantType::Bool, VariantType::Int32, VariantType::Float32, VariantType::Float64, VariantType::UDim,
+                    VariantType::UDim2, VariantType::BrickColor, VariantType::Color3, VariantType::Vector2, VariantType::Vector3, VariantType::CFrame, VariantType::String,
+                    VariantType::NumberSequence, VariantType::ColorSequence, VariantType::NumberRange, VariantType::Rect];
+                let mut m = Attributes::new();
+                for _ in 0..rng.below(5) {
+                    let t = *rng.pick(&OK);
+                    m.insert(val::gen_utf8(rng), val::gen_value(rng, t, 0));
+                }
+                Variant::Attributes(m)
+            } else {
+                Variant::Attributes(a)
+            }
+        }
+        Variant::Tags(t) => {
+            if rng.chance(85) {
+                let v: Vec<String> = t.iter().filter(|s| !s.is_empty() && !s.contains('\0')).map(|s| s.to_string()).collect();
+                Variant::Tags(v.into())
+            } else {
+                Variant::Tags(t)
+            }
+        }
+        Variant::UniqueId(u) => {
+            if rng.chance(80) {
+                Variant::UniqueId(UniqueId::new(u.index(), u.time(), u.random() & i64::MAX))
+            } else {
+                Variant::UniqueId(u)
+            }
+        }
         Variant::Enum(_) => Variant::Enum(Enum::from_u32(match rng.below(4) {
             0 => 0,
             1 => rng.below(60) as u32,
